@@ -32,6 +32,16 @@ func (mgr *AuthManager) AddAuthenticator(authenticator Authenticator) {
 	mgr.authenticators = append(mgr.authenticators, authenticator)
 }
 
+// HasAuthenticator returns true if the manager has the specified authenticator.
+func (mgr *AuthManager) HasAuthenticator(authenticator Authenticator) bool {
+	for _, a := range mgr.authenticators {
+		if a == authenticator {
+			return true
+		}
+	}
+	return false
+}
+
 // ClearAuthenticators clears all authenticators.
 func (mgr *AuthManager) ClearAuthenticators() {
 	mgr.authenticators = make([]Authenticator, 0)
